@@ -918,18 +918,26 @@ def _run_equiv(case, ctx, sb, spec, x_desc):
         for attr, want in want_attr.items():
             orc.ok(getattr(md, attr, None) == want, "model-attributes", dict(d, attr=attr),
                    f"{tag} model: {attr} = {getattr(md, attr, None)!r}, module defines {want!r}")
-        orc.ok(list(md.get_anc_parm_keys()) == common + own, "ancillary-keys", d,
-               f"get_anc_parm_keys() = {md.get_anc_parm_keys()}, expected {common + own}")
+        got_keys = orc.must_work(lambda: list(md.get_anc_parm_keys()), "lookup-raises", d, "get_anc_parm_keys()")
+        orc.ok(got_keys == common + own, "ancillary-keys", d,
+               f"get_anc_parm_keys() = {got_keys}, expected {common + own}")
+        # (asking for the keys a second time gives the same answer and leaves the module's own list alone)
+        again = orc.must_work(lambda: list(md.get_anc_parm_keys()), "lookup-raises", d, "get_anc_parm_keys()")
+        orc.ok(again == common + own and list(getattr(md.module, "parameter_anc_keys", [])) == own, "ancillary-keys", d,
+               f"second get_anc_parm_keys() = {again}; module.parameter_anc_keys = "
+               f"{getattr(md.module, 'parameter_anc_keys', None)}, module defines {own}")
         for p in spec["params"]:
-            orc.ok(md.get_parm_name(p[0]) == p[1] and md.get_parm_unit(p[0]) == p[2], "parameter-name-unit", d,
-                   f"{p[0]}: ({md.get_parm_name(p[0])!r}, {md.get_parm_unit(p[0])!r}) != ({p[1]!r}, {p[2]!r})")
+            lab = orc.must_work(lambda: (md.get_parm_name(p[0]), md.get_parm_unit(p[0])), "lookup-raises", d,
+                                f"get_parm_name/unit({p[0]!r})")
+            orc.ok(lab == (p[1], p[2]), "parameter-name-unit", d, f"{p[0]}: {lab!r} != ({p[1]!r}, {p[2]!r})")
         if spec["anc"]:
             a = spec["anc"]
             for k, nm, un in zip(a["keys"], a["names"], a["units"]):
                 if k in keys:
                     continue      # fit parameter label takes precedence
-                orc.ok(md.get_parm_name(k) == nm and md.get_parm_unit(k) == un, "parameter-name-unit", d,
-                       f"ancillary {k}: ({md.get_parm_name(k)!r}, {md.get_parm_unit(k)!r}) != ({nm!r}, {un!r})")
+                lab = orc.must_work(lambda: (md.get_parm_name(k), md.get_parm_unit(k)), "lookup-raises", d,
+                                    f"get_parm_name/unit({k!r})")
+                orc.ok(lab == (nm, un), "parameter-name-unit", d, f"ancillary {k}: {lab!r} != ({nm!r}, {un!r})")
         got = pstate(md.get_parameter_defaults())
         want = [(p[0], p[3], -np.inf if p[4] is None else p[4], np.inf if p[5] is None else p[5], p[6], None)
                 for p in spec["params"]]
